@@ -27,7 +27,9 @@ Clauses(r) == [
     \* "an entry older than its source file is never used" -- on the stat results the code itself saw
     OlderNeverUsed |-> (r.k = "data" /\ Validated(r)) => r.statMtime >= r.srcStatMtime,
     \* "a change of scanner version discards all entries"
-    NoCrossVersion |-> (r.k = "data" /\ r.mustPurge) => r.inoPutAt >= r.checkedAt ]
+    \* checkedAt: where this process itself looked and found another version's stamp (mustPurge), or,
+    \* when it found its own version's stamp, where the process that WROTE that stamp had looked
+    NoCrossVersion |-> (r.k = "data" /\ (r.mustPurge \/ r.checkedAt > 0)) => r.inoPutAt >= r.checkedAt ]
 
 Names == {"NoRaise", "InRange", "NoStale", "OlderNeverUsed", "NoCrossVersion"}
 Rejected == { <<Obs[i].id, c, IF c = "NoStale" THEN Cause(Obs[i]) ELSE "-">> :
